@@ -28,6 +28,7 @@ type flowCase struct {
 	ExtraArg []string
 	Tweak    func(*pgen.Spec)
 	Timeout  time.Duration
+	Template int // 0 = random program, k>0 = pgen.Template(k-1)
 }
 
 type flowResult struct {
@@ -41,13 +42,19 @@ type flowResult struct {
 	dir     string
 	races   []vrun.RaceReport
 	sched   string
+	vdr     vmon.VdrStats
 }
 
 func runFlowCase(c *vf.Ctx, fc *flowCase) *flowResult {
 	res := &flowResult{fc: fc}
 	cfg := fc.Cfg
 	cfg.SrcFor = vrun.ProbeSrc(c.BuildDir)
-	p := pgen.Generate(fc.Seed, cfg)
+	var p *pgen.Program
+	if fc.Template > 0 {
+		p = pgen.Template(fc.Template-1, fc.Seed, cfg)
+	} else {
+		p = pgen.Generate(fc.Seed, cfg)
+	}
 	res.prog = p
 	dir := filepath.Join(c.WorkDir, fmt.Sprintf("case-%d", fc.Index))
 	res.dir = dir
@@ -70,6 +77,8 @@ func runFlowCase(c *vf.Ctx, fc *flowCase) *flowResult {
 		res.rejected = "harness: " + err.Error()
 		return res
 	}
+	os.MkdirAll(filepath.Join(dir, "canary"), 0755)
+	os.WriteFile(filepath.Join(dir, "canary", "file"), []byte("canary"), 0644)
 	cores := fc.Cores
 	if cores == 0 {
 		cores = 4
@@ -86,6 +95,15 @@ func runFlowCase(c *vf.Ctx, fc *flowCase) *flowResult {
 	if res.run.Exit == 0 {
 		res.model, res.report = vmon.Analyze(res.obs, p)
 		vmon.CheckTopOuts(res.obs, p, res.model, res.report)
+		vmon.CheckOutsDir(res.obs, p, res.model, res.report)
+		if fc.Vdr != "disable" {
+			res.vdr = vmon.CheckVDR(res.obs, p, res.model, res.report, fc.Vdr, cs.Trace())
+		}
+		// canary beside the pipestance
+		if b, err := os.ReadFile(filepath.Join(dir, "canary", "file")); err != nil || string(b) != "canary" {
+			res.report.Findings = append(res.report.Findings, vmon.Finding{Prop: "C14", Sig: "canary-touched",
+				What: "a file beside the pipestance directory was removed or changed"})
+		}
 	}
 	res.races = vrun.ParseRaceLogs(res.run.RaceLogs)
 	// schedule signature: order of job start/end events
@@ -202,6 +220,10 @@ func flowCampaign(c *vf.Ctx, prop string, cases []*flowCase, nontrivial func(*fl
 		c.Count("disabled_calls_modelled", int64(res.report.Disabled))
 		c.Count("chunk_and_join_arg_checks", int64(res.report.ChunkChecks))
 		c.Count("top_level_leaves_checked", int64(res.report.TopLeaves))
+		c.Count("vdr_removals_observed", int64(res.vdr.Removals))
+		c.Count("vdr_reports_checked", int64(res.vdr.Reports))
+		c.Count("vdr_listed_paths_checked", int64(res.vdr.ListedPaths))
+		c.Count("written_files_checked", int64(res.vdr.WrittenChecked))
 		for k, v := range res.report.DepKinds {
 			c.Count("dep_edges_"+k, int64(v))
 		}
@@ -324,6 +346,9 @@ func init() {
 			fc := cases[idx]
 			fc.Cfg.SrcFor = vrun.ProbeSrc(c.BuildDir)
 			pre := pgen.Generate(fc.Seed, fc.Cfg)
+			if fc.Template > 0 {
+				pre = pgen.Template(fc.Template-1, fc.Seed, fc.Cfg)
+			}
 			for _, k := range pgen.SortedKeys(pre.Print()) {
 				fmt.Printf("==== %s\n%s", k, pre.Print()[k])
 			}
@@ -385,11 +410,13 @@ func init() {
 				cfg.PMapCall = 45
 				cfg.PLiteral = 8
 				cfg.PPreflight = 20
-				cfg.MaxCalls = 5
+				cfg.MaxCalls = 6
+				cfg.MaxStages = 6
+				cfg.PTwin = 45
 				seed := c.Seed*1000003 + 500000 + int64(i)
 				cases = append(cases, &flowCase{Index: i, Seed: seed, Cfg: cfg, Vdr: "disable",
 					DelayMs: []int{60, 200, 400}[i%3], Delays: hook[i%len(hook)],
-					Cores: []int{2, 4, 8}[i%3], Race: !c.Quick() && i%4 == 0})
+					Cores: []int{2, 4, 8}[i%3], Race: !c.Quick() && i%4 == 0, Template: tmplFor(i)})
 			}
 			return cases
 		},
@@ -412,6 +439,7 @@ func init() {
 				big := i%4 == 3
 				cases = append(cases, &flowCase{Index: i, Seed: seed, Cfg: cfg, Vdr: "disable",
 					DelayMs: []int{0, 40}[i%2], Delays: hook[i%len(hook)], Race: !c.Quick() && i%4 == 0,
+					Template: tmplFor(i),
 					Tweak: func(s *pgen.Spec) {
 						if big {
 							s.MaxLen = 11
@@ -456,4 +484,67 @@ func pickTimeout(t time.Duration) time.Duration {
 		return 180 * time.Second
 	}
 	return t
+}
+
+// tmplFor: every third case is a skeleton program.
+func tmplFor(i int) int {
+	if i%3 != 1 {
+		return 0
+	}
+	return 1 + (i/3)%pgen.NTemplates
+}
+
+func init() {
+	registerFlow("C13", &flowDef{
+		rule:   "pgen programs whose top-level pipeline returns files in every container nesting (file, user file types, path incl. directories, arrays / typed maps / structs of files, explicit out names, nulls, files named but never written, the same file returned twice); oracle re-derives the outs/ path of every file leaf from parameter name, type and outname and checks (a) that path resolves to the producer's content token, (b) the post-processed _outs is valid JSON of the same shape, file values name a materialised location with that content, every other value unchanged, never-written files became null. distinct = (shape hash, top-level output signature); non-trivial = at least one file leaf checked.",
+		assume: []string{"content tokens written by the probe identify the producing job's file", "expected values come from the reference evaluator over recorded stage outputs"},
+		cases: func(c *vf.Ctx) []*flowCase {
+			n := c.Pick(60, 2000)
+			var cases []*flowCase
+			for i := 0; i < n; i++ {
+				cfg := pgen.DefaultConfig()
+				cfg.PFileTypes = 75
+				cfg.PNullLit = 8
+				cfg.PLiteral = 8
+				cfg.MaxTypeDepth = 3
+				cfg.MaxStructs = 4
+				seed := c.Seed*1000003 + 1300000 + int64(i)
+				big := i%5 == 4
+				cases = append(cases, &flowCase{Index: i, Seed: seed, Cfg: cfg, Vdr: []string{"disable", "rolling", "strict"}[i%3],
+					Tweak: func(s *pgen.Spec) {
+						s.PMissingFile = 12
+						s.PNull = 8
+						if big {
+							s.MaxLen = 11
+						}
+					}})
+			}
+			return cases
+		},
+		nontrivial: func(r *flowResult) bool { return r.report != nil && r.report.TopLeaves > 0 },
+	})
+	registerFlow("C14", &flowDef{
+		rule:   "C04's file-passing programs with extra unreferenced files, nested directories and TMPDIR files written by every job, under rolling/post/strict VDR with volatile / volatile=strict|false / retain; oracle at completion: no job tmp directory, no chunk-level file of a splitting stage, no file of a volatile (strict mode: any) stage that no top-level output or retain names; every path listed in any _vdrkill* gone; fork and pipestance report count/size == sum of the hook's own lstat inventories taken just before each removal; every vanished file covered by an inventoried removal; every removal inside the pipestance; canary beside it untouched. distinct = (shape hash, mode, schedule); non-trivial = at least one removal observed.",
+		assume: []string{"report unit: filesystem entries created by jobs (runtime-made tmp/files directory inodes not counted), st_size bytes", "the verif hook inventory (util.VerifPoint vdr:remove*) walks the subtree immediately before os.RemoveAll"},
+		cases: func(c *vf.Ctx) []*flowCase {
+			n := c.Pick(60, 1500)
+			var cases []*flowCase
+			modes := []string{"rolling", "post", "strict"}
+			hook := []string{"", "vdr:*=40@0.5", "vdr:remove*=30@0.8;fork:doComplete*=20@0.5"}
+			for i := 0; i < n; i++ {
+				cfg := pgen.DefaultConfig()
+				cfg.PFileTypes = 65
+				cfg.PVolatile = 60
+				cfg.PRetain = 35
+				cfg.PResources = 50
+				cfg.PSplitStage = 50
+				cfg.PLiteral = 8
+				seed := c.Seed*1000003 + 1400000 + int64(i)
+				cases = append(cases, &flowCase{Index: i, Seed: seed, Cfg: cfg, Vdr: modes[i%3],
+					DelayMs: []int{0, 50, 150}[(i/3)%3], Delays: hook[i%len(hook)], Race: !c.Quick() && i%4 == 0})
+			}
+			return cases
+		},
+		nontrivial: func(r *flowResult) bool { return r.vdr.Removals > 0 },
+	})
 }
